@@ -2,6 +2,7 @@ package props
 
 import (
 	"fmt"
+	"strings"
 
 	"go.flow.arcalot.io/pluginsdk/schema"
 
@@ -252,6 +253,10 @@ func runC15(c *wk.Ctx) {
 		}
 	}
 	c.Meta("cov.bound_matrix_pairs", len(matrix))
+	if c.Mine(0) {
+		c.Begin(0, "directed pairs")
+		c15Directed(c)
+	}
 	nGen := c.N(3000, 1200000)
 	total := int64(len(matrix)) + nGen
 	judge := func(class string, a, b schema.Type, sa, sb *gen.Shape, wantNil bool, descr string) {
@@ -407,6 +412,121 @@ func runC15(c *wk.Ctx) {
 			c.Sample("consumer", sa.Describe())
 		}
 	})
+}
+
+// c15Directed: pairs built by hand through the constructors whose verdict follows from the statement (a producer
+// with an incompatible property type somewhere can never be consumed), in places generated pairs do not reach:
+// a recursive consumer against a finite unrolled producer, references into an external namespace behind which
+// different objects were linked, and a one-of whose two keys share one member object.
+func c15Directed(c *wk.Ctx) {
+	intT := func() schema.Type { return schema.NewIntSchema(nil, nil, nil) }
+	strT := func() schema.Type { return schema.NewStringSchema(nil, nil, nil) }
+	prop := func(t schema.Type, req bool) *schema.PropertySchema {
+		return schema.NewPropertySchema(t, nil, req, nil, nil, nil, nil, nil)
+	}
+	type pair struct {
+		name       string
+		a, b       func() schema.Type
+		mustReject bool
+	}
+	var pairs []pair
+	recursive := func() schema.Type {
+		return schema.NewScopeSchema(schema.NewObjectSchema("Node", map[string]*schema.PropertySchema{"value": prop(intT(), true), "next": prop(schema.NewRefSchema("Node", nil), false)}))
+	}
+	unrolled := func(depth, badAt int) func() schema.Type {
+		return func() schema.Type {
+			var build func(d int) *schema.ObjectSchema
+			build = func(d int) *schema.ObjectSchema {
+				props := map[string]*schema.PropertySchema{"value": prop(intT(), true)}
+				if d == badAt {
+					props["value"] = prop(strT(), true)
+				}
+				if d < depth {
+					props["next"] = prop(build(d+1), false)
+				}
+				return schema.NewObjectSchema("Node", props)
+			}
+			return schema.NewScopeSchema(build(0))
+		}
+	}
+	for depth := 0; depth <= 3; depth++ {
+		pairs = append(pairs, pair{fmt.Sprintf("recursive consumer <- finite chain of depth %d, all compatible", depth), recursive, unrolled(depth, -1), false})
+		for bad := 0; bad <= depth; bad++ {
+			pairs = append(pairs, pair{fmt.Sprintf("recursive consumer <- finite chain of depth %d, value is a string at level %d", depth, bad), recursive, unrolled(depth, bad), true})
+		}
+	}
+	external := func(valueType func() schema.Type, extra bool) func() schema.Type {
+		return func() schema.Type {
+			s := schema.NewScopeSchema(schema.NewObjectSchema("Root", map[string]*schema.PropertySchema{
+				"x": prop(schema.NewNamespacedRefSchema("Ext", "things", nil), true),
+				"l": prop(schema.NewListSchema(schema.NewNamespacedRefSchema("Ext", "things", nil), nil, nil), false)}))
+			props := map[string]*schema.PropertySchema{"a": prop(valueType(), true)}
+			if extra {
+				props["undeclared_on_the_other_side"] = prop(intT(), false)
+			}
+			s.ApplyNamespace(map[string]*schema.ObjectSchema{"Ext": schema.NewObjectSchema("Ext", props)}, "things")
+			return s
+		}
+	}
+	pairs = append(pairs,
+		pair{"same namespace and ID, same object behind it", external(intT, false), external(intT, false), false},
+		pair{"same namespace and ID, property of another kind behind it", external(intT, false), external(strT, false), true},
+		pair{"same namespace and ID, an undeclared property behind it", external(intT, false), external(intT, true), true})
+	aliased := func() schema.Type {
+		x := schema.NewObjectSchema("X", map[string]*schema.PropertySchema{"v": prop(intT(), true)})
+		return schema.NewOneOfStringSchema[any](map[string]schema.Object{"a": x, "b": x}, "_type", false)
+	}
+	split := func(second func() schema.Type) func() schema.Type {
+		return func() schema.Type {
+			return schema.NewOneOfStringSchema[any](map[string]schema.Object{
+				"a": schema.NewObjectSchema("X", map[string]*schema.PropertySchema{"v": prop(intT(), true)}),
+				"b": schema.NewObjectSchema("X", map[string]*schema.PropertySchema{"v": prop(second(), true)})}, "_type", false)
+		}
+	}
+	pairs = append(pairs,
+		pair{"one-of with one object under two keys <- two compatible objects", aliased, split(intT), false},
+		pair{"one-of with one object under two keys <- the second key's object is incompatible", aliased, split(strT), true})
+	for _, pr := range pairs {
+		c.Note("ValidateCompatibility directed: " + pr.name)
+		c.Count("pairs")
+		c.Count("class:directed")
+		c.Eval(wk.Hash64("directed", pr.name), true)
+		var a, b schema.Type
+		if p, _, msg, _ := wk.Guard(func() { a, b = pr.a(), pr.b() }); p {
+			c.Violation("C15:directed:cannot-build", "a hand-written schema could not be built: "+msg, map[string]any{"pair": pr.name})
+			continue
+		}
+		verdicts := map[bool]int{}
+		var first error
+		wit := map[string]any{"pair": pr.name}
+		panicked := false
+		for rep := 0; rep < 64 && !panicked; rep++ {
+			var err error
+			if p, site, msg, _ := wk.Guard(func() { err = a.ValidateCompatibility(b) }); p {
+				c.Violation("C15:panic:"+site, "ValidateCompatibility panicked for the hand-written pair "+pr.name+": "+msg, wit)
+				panicked = true
+				break
+			}
+			if rep == 0 {
+				first = err
+			}
+			verdicts[err == nil]++
+		}
+		if panicked {
+			continue
+		}
+		if len(verdicts) > 1 {
+			c.Violation("C15:verdict-varies:directed", fmt.Sprintf("the verdict varies over 64 evaluations of the same pair (%d accept, %d reject): %s", verdicts[true], verdicts[false], pr.name), wit)
+			continue
+		}
+		if pr.mustReject && first == nil {
+			c.Violation("C15:accepted-must-reject:directed:"+strings.SplitN(pr.name, " <-", 2)[0], "a producer that can never be consumed is accepted: "+pr.name, wit)
+		}
+		if !pr.mustReject && first != nil {
+			wit["error"] = first.Error()
+			c.Violation("C15:rejected-compatible:directed:"+strings.SplitN(pr.name, " <-", 2)[0], fmt.Sprintf("a producer whose every part is identical to the consumer's is rejected (%s): %v", pr.name, first), wit)
+		}
+	}
 }
 
 func init() { register("C15", runC15) }
